@@ -490,9 +490,13 @@ def parseInt64 (s : String) : Option Int :=
   | some v => some (if v ≥ 9223372036854775808 then v - 18446744073709551616 else v)
   | none => none
 
+/-- events of the runtime layer (context switches, fiber life-cycle, run-queue API, spin hints) -/
+def runtimeKinds : List String :=
+  ["switch", "fcreate", "fdestroy", "relax", "rqpush", "rqpop", "rqsteal", "fence"]
+
 def ofRaw (r : RawEv) : Option (Option Ev) :=
   let f := r.fiber
-  if schedulerFuncs.contains r.func then some none else
+  if schedulerFuncs.contains r.func || runtimeKinds.contains r.kind then some none else
   match r.kind, r.args with
   | "note", ["call", "lock"] => some (some (.callLock f))
   | "note", ["ret", "lock"] => some (some (.retLock f))
